@@ -163,6 +163,12 @@ def rejected_programs(rng, tier, accepted_with_sites):
         p = scopes.gen_error_program(rng.fork())
         p.update(module='Main', label='scope-error:%d' % i, features=['scopes', 'mutated'])
         out.append(p)
+    # inference violations (rejected by construction): the rewrites - explicit type arguments, annotations, wrapping - must keep
+    # them rejected
+    for kind, q in gprogs.infer_violation_programs(rng.fork()):
+        q = dict(q)
+        q.update(module='Main', label='infer-violation:' + kind, features=['inference', 'violation'])
+        out.append(q)
     for i in range(14 * scale):
         uni = ['M%d' % j for j in range(3)]
         r = rng.fork()
@@ -348,9 +354,15 @@ def verdict(front_result):
     return kinds_of(front_result.get('errors', [])), front_result.get('compile'), front_result.get('front_panic') or front_result.get('panic')
 
 
-def compare_verdicts(v0, v1):
+def compare_verdicts(v0, v1, writes_types=False):
+    """writes_types: the rewrite writes out a type (annotation / explicit type arguments). On a REJECTED program that type can
+    itself be the invalid one, and writing it a second time repeats the same complaint: the kinds of diagnostics are then
+    compared as a set (the property is about the verdict; equal multisets are demanded only where the rewrite adds no text
+    that can be complained about)."""
     k0, c0, p0 = v0
     k1, c1, p1 = v1
+    if writes_types and k0 and k1 and set(k0) == set(k1):
+        k1 = k0
     if p1 and not p0:
         return 'the front end panics on the rewritten program: %s' % p1
     if bool(k0) != bool(k1):
@@ -401,7 +413,7 @@ def check_variants(ck, originals, variants, tag, report=True):
                 d = ('declarations with duplicate names: expected rejection with the same number of NameAlreadyBound in every '
                      'order; %s before, %s after' % (v0[0], v1[0]))
         else:
-            d = compare_verdicts(v0, v1)
+            d = compare_verdicts(v0, v1, writes_types=v['kind'] in ('targs', 'annot-let', 'annot-lambda', 'annot-by-construction'))
         if d:
             fails.append((v, d, {'diagnostics': v0[0], 'compile': v0[1]}, {'diagnostics': v1[0], 'compile': v1[1],
                           'messages': [e['msg'][:200] for e in fres[j].get('errors', [])][:4]}))
